@@ -227,19 +227,17 @@ class _Deliverer:
               returns the view itself: no copy; successive views share the base's memory)"""
 
     def __init__(self, nedges):
-        self.work = np.zeros((nedges, 2))
-        self.base = np.zeros((nedges, 3))
+        self.base = np.zeros((nedges, 3))       # one memory (the model's bufQ)
+        self.work = self.base[:, :2]            # the caller's work array: the object passed again and again
 
     def __call__(self, A, form):
         if form == "fresh":
             return np.array(A, copy=True)
+        self.work[...] = A                      # overwritten in place
         if form == "inplace":
-            self.work[...] = A
-            return self.work
+            return self.work                    # the same object
         if form == "view":
-            self.work[...] = A              # one memory for both aliased forms, as in the model (bufQ)
-            self.base[:, :2] = A
-            return self.base[:, :2]
+            return self.base[:, :2]             # a new view object of the same memory
         raise ValueError(form)
 
 
